@@ -16,6 +16,7 @@ META = {
     "engine": "E1 nir2smt; exact reachability by all-SAT image iteration over the arbiter's flip-flops",
     "encoded": ["wishbone.bus.Arbiter.__init__", "wishbone.bus.Arbiter.add", "wishbone.bus.Arbiter.elaborate",
                 "wishbone.bus.Interface", "wishbone.bus.Signature"],
+    "also": 'all 20 legal (data width, arbiter granularity, initiator granularity) triples; N = 11 (thorough 16); refused add() of an initiator lacking err/rty kept as an arbitrary interface; Feature members; arbiter elaborated once and extended; warm-up instance (also in replay)',
     "bounds": "N = 1..4 initiators (thorough 1..5), data width 8-32 (thorough -64), hand-picked + seeded feature / "
               "granularity mixes (thorough: every arbiter feature subset for N=2,3); every reachable state x every "
               "input valuation (1-2 frames from each reachable state)",
